@@ -29,6 +29,23 @@ Proof.
   destruct ((0 <=? z) && (z <? 65536)) eqn:E; [|lia]. cbn [le_enc]. f_equal. f_equal. f_equal. lia.
 Qed.
 
+(* an address field as the driver emits it and as the target reads it *)
+Definition afield (n : Z) : bytes := if n <? 255 then [n] else [255; n mod 256; n / 256].
+
+Lemma address_field_ok n : 0 <= n < 65536 -> address_field n = Ok (afield n).
+Proof.
+  intros H. unfold address_field, afield. destruct (n <? 255) eqn:E.
+  - apply USINT_ok. lia.
+  - rewrite UINT_ok by exact H. reflexivity.
+Qed.
+
+Lemma parse_afield n rest : 0 <= n < 65536 -> parse_field (afield n ++ rest) = Some (n, rest).
+Proof.
+  intros H. unfold afield. destruct (n <? 255) eqn:E; cbn [app parse_field].
+  - destruct (n =? 255) eqn:E2; [lia|reflexivity].
+  - change (255 =? 255) with true. cbv iota. f_equal. f_equal. lia.
+Qed.
+
 (* the facts of the regenerated PCCC tables the composition needs, per file type *)
 Definition mcode (ft : ftype) : Z :=
   match dict_get pccc_data_type [letter ft] with Ok [c] => c | _ => -1 end.
@@ -56,20 +73,20 @@ Qed.
 Theorem read_request_bytes c tns a name :
   wf_addr a = true -> 0 <= tns < 65536 ->
   read_request c tns (addr_tag a name) =
-    Ok (mr_head ++ rid_of c ++ [15; 0; tns mod 256; tns / 256; 162;
-                                esize (a_ft a) * a_count a; a_file a; mcode (a_ft a); a_elem a; subreq a]).
+    Ok (mr_head ++ rid_of c ++ [15; 0; tns mod 256; tns / 256; 162; esize (a_ft a) * a_count a]
+                ++ afield (a_file a) ++ mcode (a_ft a) :: afield (a_elem a) ++ afield (subreq a)).
 Proof.
   intros Hwf Htns. destruct (wf_bounds a Hwf) as (He & Hf & Hs & Hc & Hz).
   destruct (table_facts (a_ft a)) as (T1 & T2 & _).
   unfold read_request, addr_tag, mk, pos_or_0.
   cbn [t_file_type t_file_number t_element_number t_pos_number t_element_count bind].
   rewrite UINT_ok by exact Htns. cbn [bind]. rewrite T1. cbn [bind].
-  rewrite USINT_ok by exact Hz. cbn [bind]. rewrite USINT_ok by lia. cbn [bind]. rewrite T2. cbn [bind].
-  rewrite USINT_ok by lia. cbn [bind].
+  rewrite USINT_ok by exact Hz. cbn [bind]. rewrite address_field_ok by lia. cbn [bind]. rewrite T2. cbn [bind].
+  rewrite address_field_ok by lia. cbn [bind].
   replace (match (if is_io (a_ft a) then Some (a_sub a) else None) with Some z => z | None => 0 end) with (subreq a)
     by (unfold subreq; destruct (is_io (a_ft a)); reflexivity).
-  rewrite USINT_ok by lia. cbn [bind]. rewrite msg_start_eq.
-  unfold SLC_CMD_CODE, SLC_FNC_READ. rewrite <- !app_assoc. reflexivity.
+  rewrite address_field_ok by lia. cbn [bind]. rewrite msg_start_eq.
+  unfold SLC_CMD_CODE, SLC_FNC_READ. repeat (rewrite <- app_assoc; cbn [app]). reflexivity.
 Qed.
 
 (* ---------------------------------------------------------------- what the target reads in a request *)
@@ -87,8 +104,8 @@ Proof.
 Qed.
 
 Lemma parse_cmd_shape c cmd sts t0 t1 fnc size file ty elem sub rest :
-  cfg_ok c -> file <> 255 -> elem <> 255 -> sub <> 255 ->
-  parse_cmd (rid_of c ++ [cmd; sts; t0; t1; fnc; size; file; ty; elem; sub] ++ rest) =
+  cfg_ok c -> 0 <= file < 65536 -> 0 <= elem < 65536 -> 0 <= sub < 65536 ->
+  parse_cmd (rid_of c ++ [cmd; sts; t0; t1; fnc; size] ++ afield file ++ ty :: afield elem ++ afield sub ++ rest) =
     CmdOk {| pc_rid := rid_of c; pc_cmd := cmd; pc_sts := sts; pc_tns := [t0; t1]; pc_fnc := fnc;
              pc_size := size; pc_file := file; pc_type := ty; pc_elem := elem; pc_sub := sub; pc_rest := rest |}.
 Proof.
@@ -96,8 +113,7 @@ Proof.
   unfold parse_cmd. cbn [app length]. change (Z.to_nat 7) with 7%nat. cbn [firstn skipn].
   match goal with |- context [(7 <? 1) || (Z.of_nat ?n <? 7 + 4)] =>
     destruct ((7 <? 1) || (Z.of_nat n <? 7 + 4)) eqn:E; [lia|] end.
-  unfold parse_field.
-  destruct (file =? 255) eqn:E1; [lia|]. destruct (elem =? 255) eqn:E2; [lia|]. destruct (sub =? 255) eqn:E3; [lia|].
+  rewrite parse_afield by exact Hf. rewrite parse_afield by exact He. rewrite parse_afield by exact Hs.
   reflexivity.
 Qed.
 
@@ -417,21 +433,21 @@ Proof.
 Qed.
 
 Theorem read_effect c tbl a name v tns pre :
-  cfg_ok c -> table_ok tbl = true -> wf_addr a = true -> a_file a <> 255 -> a_elem a <> 255 ->
+  cfg_ok c -> table_ok tbl = true -> wf_addr a = true ->
   0 <= tns < 65536 -> length pre = 46%nat -> ref_read tbl a = Some v ->
   exists req rep, read_request c tns (addr_tag a name) = Ok req
     /\ exec_mr tbl req = (tbl, rep)
     /\ ok_tag (read_tag_finish (addr_tag a name) (pre ++ rep)) v.
 Proof.
-  intros Hc Ht Hwf Hf255 He255 Htns Hpre Hr.
+  intros Hc Ht Hwf Htns Hpre Hr.
   destruct (wf_bounds a Hwf) as (He & Hf & Hs & Hcnt & Hz).
   destruct (read_region tbl a v Ht Hwf Hr) as (f & i & ws & Ef & Er & Hok & Hd).
   destruct (file_for_find _ _ _ Ef) as (Hfind & Hty & Hnum).
   destruct (table_facts (a_ft a)) as (_ & _ & T3 & T4 & _).
   eexists. eexists. split; [apply read_request_bytes; assumption|].
   rewrite exec_mr_head by exact Hc. unfold exec_pccc.
-  rewrite <- (app_nil_r [15; 0; tns mod 256; tns / 256; 162; esize (a_ft a) * a_count a; a_file a; mcode (a_ft a); a_elem a; subreq a]).
-  rewrite parse_cmd_shape by (try assumption; lia).
+  rewrite <- (app_nil_r (afield (subreq a))).
+  rewrite (parse_cmd_shape c 15 0 (tns mod 256) (tns / 256) 162) by (try assumption; lia).
   unfold exec_cmd, cmd_region.
   cbn [pc_rid pc_cmd pc_sts pc_tns pc_fnc pc_size pc_file pc_type pc_elem pc_sub pc_rest].
   change (negb (15 =? 15)) with false. change (162 =? 162) with true. cbv iota.
@@ -527,8 +543,8 @@ Qed.
 Theorem write_request_bytes c tns a name v dws :
   wf_addr a = true -> is_tc (a_ft a) = false -> 0 <= tns < 65536 -> wwords a v = Some dws ->
   write_request c tns (addr_tag a name) v =
-    Ok (mr_head ++ rid_of c ++ [15; 0; tns mod 256; tns / 256; 171;
-                                esize (a_ft a) * a_count a; a_file a; mcode (a_ft a); a_elem a; subreq a]
+    Ok (mr_head ++ rid_of c ++ [15; 0; tns mod 256; tns / 256; 171; esize (a_ft a) * a_count a]
+                ++ afield (a_file a) ++ mcode (a_ft a) :: afield (a_elem a) ++ afield (subreq a)
                 ++ le16 (wmask a) ++ words_to_bytes dws).
 Proof.
   intros Hwf Htc Htns Hw. destruct (wf_bounds a Hwf) as (He & Hf & Hs & Hc & Hz).
@@ -537,12 +553,12 @@ Proof.
   unfold write_request. rewrite W. unfold addr_tag, mk, pos_or_0.
   cbn [t_file_type t_file_number t_element_number t_pos_number t_element_count bind].
   rewrite T1. cbn [bind]. rewrite UINT_ok by exact Htns. cbn [bind].
-  rewrite USINT_ok by exact Hz. cbn [bind]. rewrite USINT_ok by lia. cbn [bind]. rewrite T2. cbn [bind].
-  rewrite USINT_ok by lia. cbn [bind].
+  rewrite USINT_ok by exact Hz. cbn [bind]. rewrite address_field_ok by lia. cbn [bind]. rewrite T2. cbn [bind].
+  rewrite address_field_ok by lia. cbn [bind].
   replace (match (if is_io (a_ft a) then Some (a_sub a) else None) with Some z => z | None => 0 end) with (subreq a)
     by (unfold subreq; destruct (is_io (a_ft a)); reflexivity).
-  rewrite USINT_ok by lia. cbn [bind]. rewrite msg_start_eq.
-  unfold SLC_CMD_CODE, SLC_FNC_WRITE. rewrite <- !app_assoc. reflexivity.
+  rewrite address_field_ok by lia. cbn [bind]. rewrite msg_start_eq.
+  unfold SLC_CMD_CODE, SLC_FNC_WRITE. repeat (rewrite <- app_assoc; cbn [app]). reflexivity.
 Qed.
 
 Lemma nontc_region a : wf_addr a = true -> is_tc (a_ft a) = false ->
@@ -618,20 +634,21 @@ Qed.
 
 Theorem write_effect c tbl a name v tns pre tbl' :
   cfg_ok c -> table_ok tbl = true -> wf_addr a = true -> is_tc (a_ft a) = false ->
-  a_file a <> 255 -> a_elem a <> 255 -> 0 <= tns < 65536 -> length pre = 46%nat ->
+  0 <= tns < 65536 -> length pre = 46%nat ->
   ref_write tbl a v = Some tbl' ->
   exists req rep, write_request c tns (addr_tag a name) v = Ok req
     /\ exec_mr tbl req = (tbl', rep)
     /\ ok_tag (write_tag_finish (addr_tag a name) v (pre ++ rep)) v.
 Proof.
-  intros Hc Ht Hwf Htc Hf255 He255 Htns Hpre Hr.
+  intros Hc Ht Hwf Htc Htns Hpre Hr.
   destruct (wf_bounds a Hwf) as (He & Hf & Hs & Hcnt & Hz).
   destruct (ref_write_masked tbl a v tbl' Ht Hwf Htc Hr) as (f & i & old & dws & Ef & Er & Hw & Hl & Hdok & Et).
   destruct (file_for_find _ _ _ Ef) as (Hfind & Hty & Hnum).
   destruct (table_facts (a_ft a)) as (_ & _ & T3 & T4 & _).
   eexists. eexists. split; [apply write_request_bytes; eassumption|].
   rewrite exec_mr_head by exact Hc. unfold exec_pccc.
-  rewrite parse_cmd_shape by (try assumption; lia).
+  repeat (rewrite <- app_assoc; cbn [app]).
+  rewrite (parse_cmd_shape c 15 0 (tns mod 256) (tns / 256) 171) by (try assumption; lia).
   unfold exec_cmd, cmd_region.
   cbn [pc_rid pc_cmd pc_sts pc_tns pc_fnc pc_size pc_file pc_type pc_elem pc_sub pc_rest].
   change (negb (15 =? 15)) with false. change (171 =? 162) with false. change (171 =? 171) with true. cbv iota.
@@ -660,58 +677,59 @@ Lemma target_view_head c body : cfg_ok c -> target_view (mr_head ++ rid_of c ++ 
 Proof. intros _. reflexivity. Qed.
 
 Theorem request_names_read c sp a tns :
-  cfg_ok c -> wf_addr a = true -> wf_spelling sp a = true -> a_file a <> 255 -> a_elem a <> 255 -> 0 <= tns < 65536 ->
+  cfg_ok c -> wf_addr a = true -> wf_spelling sp a = true -> 0 <= tns < 65536 ->
   exists t req cmd, read_tag_request c tns (render sp a) = RqOk (t, req)
     /\ target_view req = Some cmd /\ cmd_names cmd c a 162 tns /\ pc_rest cmd = [].
 Proof.
-  intros Hc Hwf Hsp Hf He Htns.
+  intros Hc Hwf Hsp Htns.
   destruct (parse_addr sp a Hwf Hsp) as [name P].
-  destruct (wf_bounds a Hwf) as (_ & _ & Hs & _).
+  destruct (wf_bounds a Hwf) as (He & Hf & Hs & _).
   destruct (table_facts (a_ft a)) as (_ & _ & T3 & _).
   unfold read_tag_request, with_tag. rewrite P. rewrite read_request_bytes by assumption.
   eexists. eexists. eexists. split; [reflexivity|].
   rewrite target_view_head by exact Hc.
-  rewrite <- (app_nil_r [15; 0; tns mod 256; tns / 256; 162; esize (a_ft a) * a_count a; a_file a; mcode (a_ft a); a_elem a; subreq a]).
-  rewrite parse_cmd_shape by (try assumption; lia).
+  rewrite <- (app_nil_r (afield (subreq a))).
+  rewrite (parse_cmd_shape c 15 0 (tns mod 256) (tns / 256) 162) by (try assumption; lia).
   split; [reflexivity|]. unfold cmd_names. cbn [pc_rid pc_cmd pc_tns pc_fnc pc_size pc_file pc_type pc_elem pc_sub pc_rest].
   repeat split; try reflexivity. exact T3.
 Qed.
 
 Theorem request_names_write c sp a tns v dws :
   cfg_ok c -> wf_addr a = true -> wf_spelling sp a = true -> is_tc (a_ft a) = false ->
-  a_file a <> 255 -> a_elem a <> 255 -> 0 <= tns < 65536 -> wwords a v = Some dws ->
+  0 <= tns < 65536 -> wwords a v = Some dws ->
   exists t req cmd, write_tag_request c tns (render sp a) v = RqOk (t, req)
     /\ target_view req = Some cmd /\ cmd_names cmd c a 171 tns
     /\ pc_rest cmd = le16 (wmask a) ++ words_to_bytes dws.
 Proof.
-  intros Hc Hwf Hsp Htc Hf He Htns Hw.
+  intros Hc Hwf Hsp Htc Htns Hw.
   destruct (parse_addr sp a Hwf Hsp) as [name P].
-  destruct (wf_bounds a Hwf) as (_ & _ & Hs & _).
+  destruct (wf_bounds a Hwf) as (He & Hf & Hs & _).
   destruct (table_facts (a_ft a)) as (_ & _ & T3 & _).
   unfold write_tag_request, with_tag. rewrite P. rewrite (write_request_bytes c tns a name v dws) by assumption.
   eexists. eexists. eexists. split; [reflexivity|].
   rewrite target_view_head by exact Hc.
-  rewrite parse_cmd_shape by (try assumption; lia).
+  repeat (rewrite <- app_assoc; cbn [app]).
+  rewrite (parse_cmd_shape c 15 0 (tns mod 256) (tns / 256) 171) by (try assumption; lia).
   split; [reflexivity|]. unfold cmd_names. cbn [pc_rid pc_cmd pc_tns pc_fnc pc_size pc_file pc_type pc_elem pc_sub pc_rest].
   repeat split; try reflexivity. exact T3.
 Qed.
 
 Theorem read_correct c tbl sp a v tns pre :
   cfg_ok c -> table_ok tbl = true -> wf_addr a = true -> wf_spelling sp a = true ->
-  a_file a <> 255 -> a_elem a <> 255 -> 0 <= tns < 65536 -> length pre = 46%nat ->
+  0 <= tns < 65536 -> length pre = 46%nat ->
   ref_read tbl a = Some v ->
   exists t req rep, read_tag_request c tns (render sp a) = RqOk (t, req)
     /\ exec_mr tbl req = (tbl, rep) /\ ok_tag (read_tag_finish t (pre ++ rep)) v.
 Proof.
-  intros Hc Ht Hwf Hsp Hf He Htns Hpre Hr.
+  intros Hc Ht Hwf Hsp Htns Hpre Hr.
   destruct (parse_addr sp a Hwf Hsp) as [name P].
-  destruct (read_effect c tbl a name v tns pre Hc Ht Hwf Hf He Htns Hpre Hr) as (req & rep & R1 & R2 & R3).
+  destruct (read_effect c tbl a name v tns pre Hc Ht Hwf Htns Hpre Hr) as (req & rep & R1 & R2 & R3).
   exists (addr_tag a name), req, rep. unfold read_tag_request, with_tag. rewrite P, R1. auto.
 Qed.
 
 Theorem write_then_read c tbl sp a v tns tns' pre pre' tbl' :
   cfg_ok c -> table_ok tbl = true -> wf_addr a = true -> wf_spelling sp a = true -> is_tc (a_ft a) = false ->
-  a_file a <> 255 -> a_elem a <> 255 -> 0 <= tns < 65536 -> 0 <= tns' < 65536 ->
+  0 <= tns < 65536 -> 0 <= tns' < 65536 ->
   length pre = 46%nat -> length pre' = 46%nat ->
   ref_write tbl a v = Some tbl' ->
   exists t wreq wrep rreq rrep,
@@ -720,16 +738,16 @@ Theorem write_then_read c tbl sp a v tns tns' pre pre' tbl' :
     /\ read_tag_request c tns' (render sp a) = RqOk (t, rreq)
     /\ exec_mr tbl' rreq = (tbl', rrep) /\ ok_tag (read_tag_finish t (pre' ++ rrep)) (norm a v).
 Proof.
-  intros Hc Ht Hwf Hsp Htc Hf He Htns Htns' Hpre Hpre' Hw.
+  intros Hc Ht Hwf Hsp Htc Htns Htns' Hpre Hpre' Hw.
   destruct (parse_addr sp a Hwf Hsp) as [name P].
-  destruct (write_effect c tbl a name v tns pre tbl' Hc Ht Hwf Htc Hf He Htns Hpre Hw) as (wreq & wrep & W1 & W2 & W3).
+  destruct (write_effect c tbl a name v tns pre tbl' Hc Ht Hwf Htc Htns Hpre Hw) as (wreq & wrep & W1 & W2 & W3).
   assert (Hbit : match a_bit a with Some b => 0 <= b <= 15 | None => True end).
   { destruct a as [ft file elem sub bit cnt]. cbn [a_bit a_ft] in *. destruct bit as [b|]; [|exact I].
     destruct ft; try discriminate; wfacts Hwf; lia. }
   assert (Ht' : table_ok tbl' = true) by (eapply ref_write_ok; eassumption).
   assert (Hrr : ref_read tbl' a = Some (norm a v)).
   { eapply ref_write_read; [eassumption|]. destruct (a_bit a); [lia|exact I]. }
-  destruct (read_effect c tbl' a name (norm a v) tns' pre' Hc Ht' Hwf Hf He Htns' Hpre' Hrr) as (rreq & rrep & R1 & R2 & R3).
+  destruct (read_effect c tbl' a name (norm a v) tns' pre' Hc Ht' Hwf Htns' Hpre' Hrr) as (rreq & rrep & R1 & R2 & R3).
   exists (addr_tag a name), wreq, wrep, rreq, rrep.
   unfold write_tag_request, read_tag_request, with_tag. rewrite P, W1, R1. auto 10.
 Qed.
